@@ -1588,6 +1588,7 @@ def bucket_direct(ctx: Ctx, n: int, use_model=True):
         prefix = bits(rng.getrandbits(L), L) if L else ""
         cap = rng.choice([1, 2, 3, 8])
         b = routing.Bucket(prefix, cap)
+        n0 = len(lines)
         lines.append(f"b.new {pb(prefix)} {cap}")
         replies.append("ok")
         for i in range(rng.randrange(1, 3 * cap + 3)):
@@ -1626,7 +1627,7 @@ def bucket_direct(ctx: Ctx, n: int, use_model=True):
                             if not bits(int.from_bytes(x.id, "big")).startswith(prefix + str(j)) or len(ch.nodes) > cap:
                                 ctx.oracle_fail("Bucket.split:wrong-children", f"split of Bucket({prefix!r}, {cap}) misplaces a node or overfills a child",
                                                 {"kind": "bucket-direct", "seed": ctx.seed})
-        case(ctx, ("bucket-direct", s, prefix, cap), nontrivial=cap < 8, n=len(lines))
+        case(ctx, ("bucket-direct", s, prefix, cap), nontrivial=cap < 8, n=len(lines) - n0)
     if use_model and ctx.model_ok:
         model = model_batch(ctx, ctx.driver(), lines)
         for ln, a, b_ in zip(lines, model, replies):
@@ -1679,11 +1680,11 @@ def run(ctx: Ctx):
     if ctx.thorough():
         small_scope(ctx, 2, 5, 1, [0, 3 << (W - 2), (1 << W) - 1])
         small_scope(ctx, 4, 3, 3, [0, 9 << (W - 4)])
-    bucket_direct(ctx, ctx.scale(60, 1500))
+    bucket_direct(ctx, ctx.scale(60, 600))
     real_node_ids(ctx)
     refresh_two_tables(ctx, ctx.scale(6, 60))
     deep_walk_scenarios(ctx, ctx.scale(2, 30))
-    routing_scenarios(ctx, ctx.scale(24, 300), [60, 150, 150, 300, 400, 700])
+    routing_scenarios(ctx, ctx.scale(24, 260), [60, 150, 150, 300, 400, 700])
     routing_scenarios(ctx, ctx.scale(1, 10), [2000, 2600])
     if ctx.model_ok and not ctx.failures and not ctx.disagreements:
         require_coverage(ctx)
